@@ -61,15 +61,39 @@ def gen_history(rng):
     else:
         logz = rng.standard_normal(T) * 10 ** rng.uniform(0, 5)
     target = float(rng.choice([0.0, 1.0, rng.random(), betas[rng.integers(T)]]))
+    # how the numbers are handed to the public API: Python / numpy integers for temperatures that are exactly 0 or 1
+    # (a prior batch followed by posterior batches), 0-d arrays, lists, integer logZ.  The stored values are the same reals.
+    vtype = "float"
+    if rng.random() < 0.12 and T >= 2:
+        vtype = str(rng.choice(["int", "npint", "0d", "list", "int-logz"]))
+        if vtype in ("int", "npint"):
+            k = int(rng.integers(1, T))
+            betas = np.concatenate([np.zeros(k), np.ones(T - k)])
+            if zk == "consistent":
+                logz = betas * off + rng.standard_normal(T)
+            target = float(rng.choice([0.0, 1.0, rng.random()]))
+        if vtype == "int-logz":
+            logz = np.rint(np.clip(logz, -1e6, 1e6))
     return dict(T=T, ns=ns, logl=logl, betas=np.asarray(betas, float), logz=np.asarray(logz, float),
-                beta=target, kind=str(kind), bmode=str(bmode), zk=str(zk))
+                beta=target, kind=str(kind), bmode=str(bmode), zk=str(zk), vtype=vtype)
 
 
-def build_state(logl, betas, logz):
+def build_state(logl, betas, logz, vtype="float"):
     from tempest.state_manager import StateManager
     sm = StateManager(1)
     for l, b, z in zip(logl, betas, logz):
-        sm.update_current({"logl": np.asarray(l, float), "beta": float(b), "logz": float(z)})
+        ll, bb, zz = np.asarray(l, float), float(b), float(z)
+        if vtype == "int":
+            bb = int(b)
+        elif vtype == "npint":
+            bb = np.int64(b)
+        elif vtype == "0d":
+            bb, zz = np.array(float(b)), np.array(float(z))
+        elif vtype == "list":
+            ll = [float(v) for v in l]
+        elif vtype == "int-logz":
+            zz = int(z)
+        sm.update_current({"logl": ll, "beta": bb, "logz": zz})
         sm.commit_current_to_history()
     return sm
 
@@ -77,14 +101,20 @@ def build_state(logl, betas, logz):
 def check_history(h):
     """returns (violations list of (key, what), stats dict)."""
     bad = []
-    sm = build_state(h["logl"], h["betas"], h["logz"])
+    sm = build_state(h["logl"], h["betas"], h["logz"], h.get("vtype", "float"))
     scale = max(float(np.max(np.abs(np.concatenate(h["logl"])))), float(np.max(np.abs(h["logz"]))), 1.0)
     tol = 1e-9 * (1.0 + scale)
     fp = []
+    vt = h.get("vtype", "float")
+    tbq = h["beta"]
+    if vt in ("int", "npint") and h["beta"] in (0.0, 1.0):
+        tbq = int(h["beta"]) if vt == "int" else np.int64(h["beta"])
+    elif vt == "0d":
+        tbq = np.array(h["beta"])
     try:
         with np.errstate(over="raise", invalid="raise", divide="raise"):
-            lw, lz = sm.compute_logw_and_logz(h["beta"])
-            lwu, lzu = sm.compute_logw_and_logz(h["beta"], normalize=False)
+            lw, lz = sm.compute_logw_and_logz(tbq)
+            lwu, lzu = sm.compute_logw_and_logz(tbq, normalize=False)
     except FloatingPointError as e:
         fp.append(str(e))
         with np.errstate(all="ignore"):
@@ -131,7 +161,7 @@ def check_history(h):
     T = h["T"]
     if T > 1:
         perm = np.random.default_rng(int(abs(h["beta"]) * 1e6) + T).permutation(T)
-        sm2 = build_state([h["logl"][i] for i in perm], h["betas"][perm], h["logz"][perm])
+        sm2 = build_state([h["logl"][i] for i in perm], h["betas"][perm], h["logz"][perm], vt if vt != "int-logz" else "float")
         lw2, lz2 = sm2.compute_logw_and_logz(h["beta"])
         # map rows back
         starts = np.concatenate([[0], np.cumsum(h["ns"])])
@@ -192,7 +222,7 @@ def _batch(seed, start, count, pid="C04"):
             bad, st = check_history(h)
         except Exception:
             bad, st = [("exception", fmt_exc())], {}
-        out.append((i, dict(T=h["T"], ns=h["ns"][:6], kind=h["kind"], bmode=h["bmode"], zk=h["zk"], beta=h["beta"]),
+        out.append((i, dict(T=h["T"], ns=h["ns"][:6], kind=h["kind"], bmode=h["bmode"], zk=h["zk"], beta=h["beta"], vtype=h.get("vtype", "float")),
                     bad, st))
     return out
 
@@ -257,6 +287,8 @@ def run():
         for idx, desc, bad, stt in val:
             ck.case(desc, nontrivial=desc["T"] > 1)
             ck.event("compute_logw_and_logz compared with reference")
+            if desc.get("vtype", "float") != "float":
+                ck.event("histories handed over as Python/numpy integers, 0-d arrays, lists or integer logZ")
             worst = max(worst, stt.get("err", 0.0))
             for key, what in bad:
                 ck.violation(key, what, dict(stream=["hist", idx], case=desc))
